@@ -188,6 +188,12 @@ pub ghost enum HostCall<Sz, Sy> {
     Apply(Sz, Sz),
 }
 
+/// one entry of the host log: the call and the host's answer (true = handled)
+pub ghost struct HostEvent<Sz, Sy> {
+    pub call: HostCall<Sz, Sy>,
+    pub accepted: bool,
+}
+
 pub ghost struct Frame<Sz> {
     pub ret: Sz,
     pub saved_regs: Seq<Sz>,
@@ -208,7 +214,7 @@ pub ghost struct St<Sz, N, Sy, C, B> {
     pub instrs: Seq<(Instruction, Option<Sz>)>,  // instruction table
     pub jumps: Seq<Sz>,                          // jump table
     pub cursor: Sz,                              // instruction cursor
-    pub host: Seq<HostCall<Sz, Sy>>,             // every call that reached a host extension point, in order
+    pub host: Seq<HostEvent<Sz, Sy>>,             // every call that reached a host extension point, in order
     pub building: Map<Sz, Building<Sz>>,         // lists between start_list and end_list
 }
 
@@ -229,11 +235,61 @@ pub open spec fn only_cells_regs<Sz, N, Sy, C, B>(o: St<Sz, N, Sy, C, B>, n: St<
     grows(o, n) && n == (St { cells: n.cells, data_len: n.data_len, regs: regs, ..o })
 }
 
+
+// ---------------------------------------------------------------------------------
+// Property-level vocabulary, written from the property statements (not from the code)
+// ---------------------------------------------------------------------------------
+
+/// C06: an instruction that pops `pops` operands and leaves exactly one result; the untouched
+/// prefix of the operand stack is *equal*, values / frames / program tables are unchanged.
+pub open spec fn op_effect<Sz, N, Sy, C, B>(o: St<Sz, N, Sy, C, B>, n: St<Sz, N, Sy, C, B>, pops: nat) -> bool {
+    &&& o.regs.len() >= pops
+    &&& grows(o, n)
+    &&& n.regs.len() == o.regs.len() - pops + 1
+    &&& n.regs.drop_last() =~= o.regs.take(o.regs.len() - pops)
+    &&& n.cells.contains_key(n.regs.last())
+    &&& n == (St { cells: n.cells, data_len: n.data_len, regs: n.regs, host: n.host, ..o })
+}
+
+/// the cell on top of the operand stack
+pub open spec fn top<Sz, N, Sy, C, B>(n: St<Sz, N, Sy, C, B>) -> Cell<Sz, N, Sy, C, B> {
+    n.cells[n.regs.last()]
+}
+
+/// C09 at the instruction: `Some(v)` becomes the number v, `None` becomes unit
+pub open spec fn top_is_result<Sz, N, Sy, C, B>(n: St<Sz, N, Sy, C, B>, x: Option<N>) -> bool {
+    match x {
+        Some(v) => top(n).ty == GarnishDataType::Number && top(n).num == v,
+        None => top(n).ty == GarnishDataType::Unit,
+    }
+}
+
+/// C08: the operation was offered to the host exactly once, as `call`; if the host declined the
+/// result is unit (if it accepted, `op_effect` already says the host's single result is the top)
+pub open spec fn deferred_one<Sz, N, Sy, C, B>(o: St<Sz, N, Sy, C, B>, n: St<Sz, N, Sy, C, B>) -> bool {
+    &&& n.host.len() == o.host.len() + 1
+    &&& n.host.drop_last() =~= o.host
+    &&& (!n.host.last().accepted ==> top(n).ty == GarnishDataType::Unit)
+}
+
+pub open spec fn deferred_once<Sz, N, Sy, C, B>(o: St<Sz, N, Sy, C, B>, n: St<Sz, N, Sy, C, B>, call: HostCall<Sz, Sy>) -> bool {
+    deferred_one(o, n) && n.host.last().call == call
+}
+
+/// C10: exactly two values are false - unit and `$!`
+pub open spec fn truthy(t: GarnishDataType) -> bool {
+    t != GarnishDataType::False && t != GarnishDataType::Unit
+}
+
+/// second operand from the top / top operand of the stack before the instruction
+pub open spec fn opnd_l<Sz, N, Sy, C, B>(o: St<Sz, N, Sy, C, B>) -> Sz { o.regs[o.regs.len() - 2] }
+pub open spec fn opnd_r<Sz, N, Sy, C, B>(o: St<Sz, N, Sy, C, B>) -> Sz { o.regs[o.regs.len() - 1] }
+
 /// effect of one call that reached a host extension point
 pub open spec fn host_effect<Sz, N, Sy, C, B>(o: St<Sz, N, Sy, C, B>, n: St<Sz, N, Sy, C, B>, call: HostCall<Sz, Sy>, accepted: bool) -> bool {
     grows(o, n)
-    && n == (St { cells: n.cells, data_len: n.data_len, regs: n.regs, host: o.host.push(call), ..o })
-    && (accepted ==> n.regs.len() == o.regs.len() + 1 && n.regs.drop_last() == o.regs)
+    && n == (St { cells: n.cells, data_len: n.data_len, regs: n.regs, host: o.host.push(HostEvent { call: call, accepted: accepted }), ..o })
+    && (accepted ==> n.regs.len() == o.regs.len() + 1 && n.regs.drop_last() =~= o.regs && n.cells.contains_key(n.regs.last()))
     && (!accepted ==> n.regs == o.regs)
 }
 
@@ -518,8 +574,8 @@ pub trait GarnishData: Sized {
     fn pop_register(&mut self) -> (r: Result<Option<Self::Size>, Self::Error>)
         requires old(self).inv(),
         ensures final(self).inv(),
-            r matches Ok(Some(v)) ==> old(self).st().regs.len() > 0 && v == old(self).st().regs.last() && only_cells_regs(old(self).st(), final(self).st(), old(self).st().regs.drop_last()),
-            r matches Ok(None) ==> old(self).st().regs.len() == 0 && only_cells(old(self).st(), final(self).st());
+            r matches Ok(Some(v)) ==> old(self).st().regs.len() > 0 && v == old(self).st().regs.last() && final(self).st() == (St { regs: old(self).st().regs.drop_last(), ..old(self).st() }),
+            r matches Ok(None) ==> old(self).st().regs.len() == 0 && final(self).st() == old(self).st();
 
     // ---- input-value stack ----
     fn push_value_stack(&mut self, addr: Self::Size) -> (r: Result<(), Self::Error>)
@@ -531,9 +587,9 @@ pub trait GarnishData: Sized {
     fn pop_value_stack(&mut self) -> (r: Option<Self::Size>)
         requires old(self).inv(),
         ensures final(self).inv(),
-            r matches Some(v) ==> old(self).st().values.len() > 0 && v == old(self).st().values.last() && grows(old(self).st(), final(self).st())
-                && final(self).st() == (St { cells: final(self).st().cells, data_len: final(self).st().data_len, values: old(self).st().values.drop_last(), ..old(self).st() }),
-            r is None ==> old(self).st().values.len() == 0 && only_cells(old(self).st(), final(self).st());
+            r matches Some(v) ==> old(self).st().values.len() > 0 && v == old(self).st().values.last()
+                && final(self).st() == (St { values: old(self).st().values.drop_last(), ..old(self).st() }),
+            r is None ==> old(self).st().values.len() == 0 && final(self).st() == old(self).st();
 
     fn get_current_value(&self) -> (r: Option<Self::Size>)
         requires self.inv(),
@@ -560,12 +616,11 @@ pub trait GarnishData: Sized {
     fn pop_frame(&mut self) -> (r: Result<Option<Self::Size>, Self::Error>)
         requires old(self).inv(),
         ensures final(self).inv(),
-            r matches Ok(Some(v)) ==> old(self).st().frames.len() > 0 && v == old(self).st().frames.last().ret && grows(old(self).st(), final(self).st())
-                && final(self).st() == (St { cells: final(self).st().cells, data_len: final(self).st().data_len, regs: old(self).st().frames.last().saved_regs,
-                        frames: old(self).st().frames.drop_last(), ..old(self).st() }),
-            r matches Ok(None) ==> old(self).st().frames.len() == 0 && grows(old(self).st(), final(self).st())
+            r matches Ok(Some(v)) ==> old(self).st().frames.len() > 0 && v == old(self).st().frames.last().ret
+                && final(self).st() == (St { regs: old(self).st().frames.last().saved_regs, frames: old(self).st().frames.drop_last(), ..old(self).st() }),
+            r matches Ok(None) ==> old(self).st().frames.len() == 0
                 && final(self).st().regs.is_prefix_of(old(self).st().regs)
-                && final(self).st() == (St { cells: final(self).st().cells, data_len: final(self).st().data_len, regs: final(self).st().regs, ..old(self).st() });
+                && final(self).st() == (St { regs: final(self).st().regs, ..old(self).st() });
 
     // ---- program tables ----
     fn get_instruction_len(&self) -> (r: Self::Size)
@@ -585,8 +640,7 @@ pub trait GarnishData: Sized {
     fn set_instruction_cursor(&mut self, addr: Self::Size) -> (r: Result<(), Self::Error>)
         requires old(self).inv(),
         ensures final(self).inv(),
-            r is Ok ==> grows(old(self).st(), final(self).st())
-                && final(self).st() == (St { cells: final(self).st().cells, data_len: final(self).st().data_len, cursor: addr, ..old(self).st() });
+            r is Ok ==> final(self).st() == (St { cursor: addr, ..old(self).st() });
 
     fn get_from_jump_table(&self, index: Self::Size) -> (r: Option<Self::Size>)
         requires self.inv(),
